@@ -219,7 +219,10 @@ def run(tier):
             if not b["cleanup"] and b["term"]["k"] == "switch" and cfg.self_field_of_switch(de, bi) == ["keep_tags"]:
                 m, other = cfg.switch_edge_blocks(de, bi)
                 if 0 in m and cfg.dominated_by_edge(de, ws[0]["use"]["bb"], bi, m[0]):
-                    ok = True
+                    # ... and every returning path from the !keep_tags edge passes the clear()
+                    cb = ws[0]["use"]["bb"]
+                    esc = None if m[0] == cb else cfg.flag_reach(de, m[0], cfg.return_blocks(de), avoid={cb} | cfg.err_sink_blocks(de))
+                    ok = esc is None and m[0] not in cfg.return_blocks(de)
     rep.check(ok, "tags-reset-at-document-end", "document_end", "document_end no longer clears the tag handles exactly when keep_tags is off",
               site=de.span)
     return rep
